@@ -211,7 +211,11 @@ def run(ctx) -> Result:
         kind = KINDS[i % 3]
         spelling = SPELL[(i // 3) % 3]
         recursive = (i % 5) != 4
-        hist = pipe.gen_history(rng, n_ops=rng.randint(4, 10), paced=True, burst_prob=rng.choice([0.0, 0.6]), names=NAMES19)
+        if i % 5 == 2:
+            # directories arriving WITH content (synthetic created events), some renamed right away
+            hist = pipe.gen_history_arrivals(rng, n=rng.randint(1, 3), rename_prob=0.3)
+        else:
+            hist = pipe.gen_history(rng, n_ops=rng.randint(4, 10), paced=True, burst_prob=rng.choice([0.0, 0.6]), names=NAMES19)
         one(ctx, res, hist, recursive, bool(i % 7 == 3), kind, spelling, batch)
         if i % 2 == 0:
             # the polling backend, cycling through all path kinds and spellings independently of the native run
